@@ -533,6 +533,9 @@ pub fn probe_query(sim: &mut Sim) {
                             format!("get_ask reports {:?} but a cancel returns {:?}", want, r.deltas),
                         );
                     }
+                    if fork.query(&json!({"get_ask": {"id": id}})).is_ok() {
+                        sim.flag(&["C16"], "P-query.cancelled_order_still_reported", "query", "ask", format!("get_ask still answers for {} after its cancel succeeded", id));
+                    }
                 }
             }
         }
@@ -560,6 +563,9 @@ pub fn probe_query(sim: &mut Sim) {
                             "bid",
                             format!("get_bid reports {:?} but a cancel returns {:?}", want, r.deltas),
                         );
+                    }
+                    if fork.query(&json!({"get_bid": {"id": id}})).is_ok() {
+                        sim.flag(&["C16"], "P-query.cancelled_order_still_reported", "query", "bid", format!("get_bid still answers for {} after its cancel succeeded", id));
                     }
                 }
             }
